@@ -2218,7 +2218,7 @@ fn generate_constraints_stmt(
             {
                 if let Declaration::Var(node) = decl {
                     if let AstNode::Pat(pat) = node
-                        && !ctx.pat_is_mutable[&pat.id]
+                        && !ctx.pat_is_mutable.get(&pat.id).copied().unwrap_or(false)
                     {
                         ctx.errors.push(Error::GenericWithNode {
                             msg:
